@@ -206,6 +206,13 @@ static void write_elf_header(
       break;
   }
 
+  // ELF64 has a 64 byte header and 56 byte program headers.
+  if (elf->e_ident[EI_CLASS] == 2 && elf->e_phnum != 0)
+  {
+    elf->e_phoff = 0x40;
+    elf->e_phentsize = 56;
+  }
+
   // Null section to start...
   elf->e_shnum++;
 
@@ -240,7 +247,7 @@ static void write_elf_header(
     elf->shoff_offset = file.tell();
     file.write_int64(0);              // e_shoff (section header offset)
     file.write_int32(elf->e_flags);   // e_flags (set to CPU model)
-    file.write_int16(0x34);           // e_ehsize (size of this struct)
+    file.write_int16(0x40);           // e_ehsize (size of this struct)
     file.write_int16(elf->e_phentsize); // e_phentsize (pheader size)
     file.write_int16(elf->e_phnum);   // e_phnum (program headers count)
     file.write_int16(64);             // e_shentsize (section header size)
